@@ -70,7 +70,8 @@ type Case struct {
 	// source cycle through these tokens: S join start line, C continuation,
 	// N normal line, X normal line without the "jm" field, D script discard,
 	// B script break, H script hold, L script collapse, K split parent whose
-	// children are all discarded, P reader pause of PauseMs (no event).
+	// children are all discarded, J split parent whose children are join start
+	// lines, P reader pause of PauseMs (no event).
 	Pattern []string
 	// StopAfterMs > 0: Pipeline.Stop is called that long after the readers
 	// started, while the output may still be retrying.
